@@ -11,6 +11,7 @@ package server
 // persisted state.
 
 import (
+	"bytes"
 	"encoding/json"
 	"fmt"
 	"path/filepath"
@@ -54,6 +55,10 @@ type ReplBody struct {
 	// on keys of its own as fast as it can (hundreds of records within a moment)
 	BurstAtMs int `json:"burst_at_ms,omitempty"`
 	BurstOps  int `json:"burst_ops,omitempty"`
+	// BurstBigEvery > 0: every that-many-th lock of the burst stores a value larger than the
+	// 4 KiB buffers of the replication sender (BurstBigSize bytes)
+	BurstBigEvery int `json:"burst_big_every,omitempty"`
+	BurstBigSize  int `json:"burst_big_size,omitempty"`
 	// NewHistory: after the first workload the leader is killed, loses its directory and comes back
 	// on the same address with an empty log (a new history that re-uses the same file indexes and
 	// offsets); Clients2 then run on it while the followers, still holding the old history and
@@ -144,6 +149,11 @@ func genRepl(prop string, seed uint64, tier string) *Scenario {
 			}
 		}
 		body.HoldbackMs = 300 + r.Intn(5000)
+	}
+	// drawn from a generator of its own (added later)
+	if bg := ssched.Sub(seed, "bigval"); body.BurstOps > 0 && bg.Intn(2) == 0 {
+		body.BurstBigEvery = 2 + bg.Intn(12)
+		body.BurstBigSize = []int{4000, 4033, 4100, 6000, 9000, 20000}[bg.Intn(6)]
 	}
 	raw, _ := json.Marshal(body)
 	k := genKnobs(r)
@@ -551,7 +561,12 @@ func runRepl(w *World) {
 				c := newMemClient(w, rr.h, rr.leader, 90)
 				for i := 0; i < body.BurstOps && !ssched.NodeDead(1); i++ {
 					key := 40 + i%7
-					l := rr.h.invoke(90, 2*i, OpSpec{Cmd: 1, Key: key, Lid: 30 + i%3, Expried: 60, EFlag: efAof0, Count: 0xffff, Wait: true})
+					lo := OpSpec{Cmd: 1, Key: key, Lid: 30 + i%3, Expried: 60, EFlag: efAof0, Count: 0xffff, Wait: true}
+					if body.BurstBigEvery > 0 && i%body.BurstBigEvery == body.BurstBigEvery-1 {
+						lo.Data = &DataSpec{Op: "set", Val: append([]byte(fmt.Sprintf("big%d-", i)), bytes.Repeat([]byte{'B'}, body.BurstBigSize)...)}
+						w.probe("burst_big_values")
+					}
+					l := rr.h.invoke(90, 2*i, lo)
 					_ = c.Send(l)
 					u := rr.h.invoke(90, 2*i+1, OpSpec{Cmd: 2, Key: key, Lid: 30 + i%3, Wait: true})
 					_ = c.Send(u)
